@@ -20,7 +20,7 @@ LEVEL = 'model_checking'
 RULE = (
     'all traces of the hopping model (symbols: none, (site,inner), (site,shell)) for the listed '
     '(atoms, sites, frames<=L) bounds; each trace is one execution of the real event builder; '
-    'distinct = distinct event tables observed'
+    'inputs unchanged and build repeatable; states/events re-read after the prev/next views; distinct = distinct event tables observed'
 )
 LEVEL_TEXT = (
     'Exhaustive exploration of every site/inner-site history of the hopping model up to the frame '
